@@ -53,7 +53,7 @@ func init() {
 	core.Register(&core.Prop{
 		ID:    "C18",
 		Level: "exploration",
-		Rule: "seeded index files (YAML/JSON, 1-3 charts, 0-12 entries each in random order: releases, pre-releases, build metadata, v prefix, short forms, equal-precedence duplicates, invalid strings, null / metadata-less / nameless / url-less entries, wrong-typed fields, missing apiVersion) loaded with repo.LoadIndexFile; per chart: Get with \"\", every version string in the file, equal-precedence respellings, absent versions and generated constraints (^ ~ ranges comparisons wildcards || pre-release-including, garbage); resolver.Resolve with the same constraints; GetTagMatchingVersionOrConstraint on the version strings. " +
+		Rule: "seeded index files (YAML/JSON, 1-3 charts, 0-12 entries each in random order: releases, pre-releases, build metadata, v prefix, short forms, equal-precedence duplicates, invalid strings, null / metadata-less / nameless / url-less entries, wrong-typed fields, missing apiVersion) loaded with repo.LoadIndexFile; per chart: Get with \"\", every version string in the file, equal-precedence respellings, absent versions and generated constraints (^ ~ ranges comparisons wildcards || pre-release-including, garbage); resolver.Resolve with the same constraints; GetTagMatchingVersionOrConstraint on the version strings; for every second index an OCI route: a registry stub on 127.0.0.1 serves the versions as a tag list in pages of 1/2/3/100 (Link header), queried through registry.Client.Tags, Tags+GetTagMatchingVersionOrConstraint, Client.ValidateReference and resolver.Resolve on an oci:// dependency. " +
 			"distinct_nontrivial counts (format, kinds of bad entries present, entry point, query kind, outcome) tuples.",
 		Assumptions: []string{
 			"Masterminds/semver (NewVersion, NewConstraint, Check, Compare) is the trusted definition of validity, satisfaction and precedence",
@@ -784,6 +784,10 @@ func oneIndex(res *core.Result, rng *rand.Rand, sp indexSpec, dir string, j int,
 			}
 			res.Stat("resolver_multi_locks_compared", 1)
 		}
+	}
+	// ---- OCI route: the registry's (paginated) tag list stands in for the index
+	if j%2 == 0 && len(sp.Charts) > 0 {
+		ociRoute(res, rng, sp, sp.Charts[rng.Intn(len(sp.Charts))], dir, j, verbose)
 	}
 	if res.Sample == nil && len(sp.Charts) > 0 && len(sp.Charts[0].Entries) > 3 {
 		res.Sample = map[string]any{"format": sp.Format, "bad_kinds": bad, "chart": sp.Charts[0].Name, "versions_in_file": specVersions(sp.Charts[0]), "queries": len(reqs)}
